@@ -2,7 +2,7 @@
 
 For every class of the library that defines its own `dump`, the body is read from the source AST as a script over
 
-    validate | openW | getParser | serialize | buildFile | newBuf | buildMem | writeBuf | unknown
+    validate | openW | getParser | serialize | buildFile | newBuf | buildMem | writeBuf | unlink | unknown
 
 in statement order (the statements inside `with open_file_obj(f, "w") as f:` follow the `openW`).  Only the exact
 idiom of the library is recognised:
@@ -17,7 +17,8 @@ idiom of the library is recognised:
     f.write(content.getvalue())                       -> writeBuf    (inside the with block)
 
 Anything else is `unknown` (treated as fallible by the model); an unrecognised statement that contains a call of
-something named `open*` is `openW, unknown` (it may truncate AND may fail afterwards).  The translation can therefore
+something named `open*` is `openW, unknown` (it may truncate AND may fail afterwards); one that contains a call of
+os.unlink / os.remove / os.rename / os.replace / shutil.* is `unlink, unknown` (the destination may be gone).  The translation can therefore
 only break the obligation `noFallibleAfterOpen`, never discharge it.
 
 Output: Generated/Effects.lean (`Gen.dumpScript_<Class>`, `Gen.dumpScripts`, `Gen.dumpOwner`) and the same in JSON.
@@ -49,12 +50,27 @@ def is_open_file_obj_w(call):
     return bool(ok_name and isinstance(a0, ast.Name) and isinstance(a1, ast.Constant) and a1.value == "w")
 
 
+DESTRUCTIVE = ("unlink", "remove", "rename", "renames", "replace", "rmtree", "move", "copy", "copy2", "copyfile", "copyfileobj", "truncate", "rmdir")
+
+
 def mentions_open(node):
     for n in ast.walk(node):
         if isinstance(n, ast.Call):
             f = n.func
             nm = f.id if isinstance(f, ast.Name) else f.attr if isinstance(f, ast.Attribute) else ""
-            if nm.startswith("open") or nm.endswith("open") or nm in ("truncate", "unlink", "remove", "rename", "replace", "write"):
+            if nm.startswith("open") or nm.endswith("open") or nm == "write":
+                return True
+    return False
+
+
+def mentions_destructive(node):
+    """a call of os.unlink / os.remove / os.rename / os.replace / shutil.* (or anything so named) anywhere in the statement"""
+    for n in ast.walk(node):
+        if isinstance(n, ast.Call):
+            f = n.func
+            nm = f.id if isinstance(f, ast.Name) else f.attr if isinstance(f, ast.Attribute) else ""
+            owner = ast.unparse(f.value) if isinstance(f, ast.Attribute) else ""
+            if (nm in DESTRUCTIVE and not (nm == "replace" and owner not in ("os", "shutil", "os.path"))) or owner == "shutil":
                 return True
     return False
 
@@ -100,6 +116,8 @@ def tr_block(stmts, inside, out, state):
             tr_block(st.body, True, out, state)
             state["file"] = None
             continue
+        if mentions_destructive(st):
+            out.append(dict(eff="unlink", inside_with=inside, src=src, why="unrecognised statement that may remove/rename/replace the destination"))
         if mentions_open(st):
             out.append(dict(eff="openW", inside_with=inside, src=src, why="unrecognised statement that may open/alter a file"))
         out.append(dict(eff="unknown", inside_with=inside, src=src, why="outside the dump idiom"))
